@@ -19,10 +19,10 @@ func init() {
 		Rule: "cases: a directory (valid NetworkPolicy / ANP / Ingress worlds; worlds with a malformed document; with a fatal duplicate-policy conflict; with nothing analysable) and a random flag combination (-o txt|json|csv|md|dot, --exposure, --focusworkload present/absent/shared, --fail, -q/-v, -f FILE) for list, or (-o txt|csv|md|dot, --fail, -f) for diff against an edited second directory; " +
 			"the binary built from cmd/netpolicy is run as a child process and compared byte-for-byte with the in-process library call made with the same options: stdout = returned string, -f file = stdout, exit status != 0 <=> library returned an error; ConnlistFromResourceInfos(scan(dir)) must return the same connections as ConnlistFromDirPath; " +
 			"non-trivial = the compared output is non-empty and at least one non-default flag is set; distinct = world hash + flags",
-		Assumptions: []string{"C08 (run-to-run determinism) for comparing two separate executions", "log output goes to stderr and is not part of the comparison"},
-		NumCases:    func(tier string, _ int64) int { return tierN(tier, 480, 12000) },
-		Run:         runC18,
-		NeedsBinary: true,
+		Assumptions:       []string{"C08 (run-to-run determinism) for comparing two separate executions", "log output goes to stderr and is not part of the comparison"},
+		NumCases:          func(tier string, _ int64) int { return tierN(tier, 480, 12000) },
+		Run:               runC18,
+		NeedsBinary:       true,
 		MinNonTrivial:     100,
 		MinEffectiveShare: 0.4,
 		RequiredEvents: map[string]int64{"binary_runs": 400, "stdout_bytes_compared": 50000, "outfile_compared": 50, "error_exit_cases": 30, "list_invocations": 200, "diff_invocations": 80,
